@@ -171,7 +171,7 @@ func loadWorld(repo, verif string, pkgDirs []string) (*World, error) {
 			pkgPath += "/" + filepath.ToSlash(rel)
 		}
 		if err := w.C.loadFile(filepath.Join(d, contractFile), pkgPath, false); err != nil {
-			return nil, err
+			w.C.LoadErrors = append(w.C.LoadErrors, loadError{Pkg: pkgPath, Err: err.Error()})
 		}
 	}
 	var patterns []string
